@@ -117,6 +117,17 @@ CHECKS["C13"] = ("DESIGN.md C13",
     "or a CklRuntimeError carrying a language value; other exception classes and confirmed budget "
     "exhaustion are violations.")
 
+CHECKS["C16"] = ("DESIGN.md C16",
+    "Argument preservation: C13's enumeration of functions, forms and kind tuples (symbolic int "
+    "payloads) with the rendered form of every argument compared before and after each call on "
+    "every path; documented mutators may change their first argument only. Alias graphs: programs "
+    "of 3 (thorough 4) operations chosen by symbolic selectors from 30 templates (aliasing, copying, "
+    "mutators through variables/parameters/closures/nested containers/map values/object members, "
+    "non-mutating library calls) read back and compared with a reference heap model; 18 "
+    "result-independence programs. The quantification over functions/kinds/operation sequences is "
+    "an enumeration driven by the solver; the solver's own contribution is path coverage inside "
+    "each call.")
+
 NA = {}
 
 
